@@ -52,6 +52,9 @@ def _classify(ctx, dist, distinct, samples, mode, env, runs, lockstep):
         dist["eagain"] += sum(1 for l in lines if " eagain " in l)
         dist["near_block_boundary"] += 1 if straddle else 0
         dist["clears"] += sum(1 for l in lines if l.endswith("ev call clear"))
+        for l in lines:
+            if " ev stats " in l and " stale " in l:
+                dist["stale_reads_view_mode"] += int(l.split()[-1])
         if nsleep > 0 or ncasfail > 0:
             distinct.add(sha("\n".join(l for l in lines if " ev stats" not in l)))
         text = "mode=%s seed=%d env=%s\n%s" % (mode, r["seed"], env, "\n".join(lines[-400:]))
@@ -77,7 +80,7 @@ def _classify(ctx, dist, distinct, samples, mode, env, runs, lockstep):
 def run(ctx):
     ctx.cov["trusted_base"] += [
         "vrt/vrt.cpp (TSan-ABI interposition, deterministic scheduler, futex emulation, happens-before race monitor) and the TSan-instrumented build (differs from production in the places listed in DESIGN 3.3)",
-        "executions are sequentially consistent interleavings at atomic-operation granularity; memory orders are tied statically (generated order constants used by the model's happens-before ghost, skeleton obligations), dynamically by trace equality and by the race monitor; the store-buffering pattern status-store / seq_cst fence / waiter-load vs. waiter-CAS / futex compare is proved for SC interleavings only (mixed-size accesses to one futex word are outside the C++ memory model)",
+        "executions are sequentially consistent interleavings at atomic-operation granularity; memory orders are tied statically (generated order constants used by the model's happens-before ghost, skeleton obligations), dynamically by trace equality and by the race monitor; the store-buffering pattern status-store / seq_cst fence / waiter-load vs. waiter-CAS / futex compare is proved for SC interleavings only and explored (oracle-only) in VRT's release/acquire view mode, where loads may be stale (mixed-size accesses to one futex word are outside the C++ memory model)",
         "ConcurrentVector replaced by its specification (slot i exists when asked for; for_each splits at block boundaries; reserved_snapshot / ensure / size arithmetic tied by gen/topic.py shape checks)",
         "kernel futex contract: wait compares and sleeps atomically, wake-all wakes every sleeper, spurious returns allowed",
         "client contract (header comments): close only after every publish returned and no publish until clear; clear runs alone and invalidates consumers; one thread per consumer; CONCURRENT=false variant of publish_n not modelled",
@@ -97,24 +100,36 @@ def run(ctx):
         n *= 4
     seed0 = ctx.seed * 1000003
     dist = {"modes": {}, "verdicts": {}, "replay_ok": 0, "replay_diverge": 0, "oracle": 0, "cas_fail_lines": 0, "max_trace": 0,
-            "sleeps": 0, "wakes_with_sleepers": 0, "eagain": 0, "near_block_boundary": 0, "clears": 0, "corpus": 0}
+            "sleeps": 0, "wakes_with_sleepers": 0, "eagain": 0, "near_block_boundary": 0, "clears": 0, "corpus": 0, "stale_reads_view_mode": 0}
     distinct = set()
     samples = []
     for mode, seed, env in _corpus():
-        runs = ctx.econc(exe, drv if mode == "lock" else None, [mode], seed, 1, env=env)
+        lockstep = mode == "lock" and "VRT_MEM" not in env
+        runs = ctx.econc(exe, drv if lockstep else None, [mode], seed, 1, env=env)
         dist["corpus"] += len(runs)
-        _classify(ctx, dist, distinct, samples, mode, env, runs, mode == "lock")
+        _classify(ctx, dist, distinct, samples, mode, env, runs, lockstep)
+    # SC lock-step passes, SC oracle-only passes while the vector grows, and oracle-only passes in VRT's
+    # weak-memory (view) mode: stale loads allowed by the release/acquire view model, so that a missing
+    # seq_cst fence (lost wake-up -> deadlock verdict) or a weakened release/acquire (stale item -> race /
+    # oracle) shows up as a concrete schedule
+    view = {"VRT_MEM": "view"}
     plan = [("lock", n, {}), ("lock", n // 2, {"VRT_STRATEGY": "pct"}), ("lock", n // 3, {"VRT_CAS_WEAK_FAIL": "2"}),
-            ("grow", n // 2, {}), ("grow", n // 4, {"VRT_STRATEGY": "pct"})]
+            ("grow", n // 2, {}), ("grow", n // 4, {"VRT_STRATEGY": "pct"}),
+            ("lock", n, view), ("lock", n // 2, dict(view, VRT_STALE="70")), ("grow", n // 2, view),
+            ("lock", n // 3, dict(view, VRT_STRATEGY="pct"))]
     for mode, cnt, env in plan:
         key = mode + ("/" + ",".join("%s=%s" % kv for kv in sorted(env.items())) if env else "")
+        lockstep = mode == "lock" and "VRT_MEM" not in env
         done = 0
-        while done < cnt and len(ctx.failing) < 5 and len([b for b in ctx.broken if b[0] == "correspondence"]) < 5:
+        ncorr0 = len([b for b in ctx.broken if b[0] == "correspondence"])
+        if lockstep and ncorr0 >= 5:
+            continue   # the lock-step replay already diverges: go on to the oracle-only passes, which can produce a failing schedule
+        while done < cnt and len(ctx.failing) < 5 and len([b for b in ctx.broken if b[0] == "correspondence"]) - ncorr0 < 5:
             k = min(100, cnt - done)   # batches, so that a broken implementation (every run deadlocks) stops the search early
-            runs = ctx.econc(exe, drv if mode == "lock" else None, [mode], seed0 + done, k, env=env)
+            runs = ctx.econc(exe, drv if lockstep else None, [mode], seed0 + done, k, env=env)
             done += k
             dist["modes"][key] = dist["modes"].get(key, 0) + len(runs)
-            _classify(ctx, dist, distinct, samples, mode, env, runs, mode == "lock")
+            _classify(ctx, dist, distinct, samples, mode, env, runs, lockstep)
     ctx.cov["distribution"] = dist
     ctx.cov["distinct_nontrivial"] = len(distinct)
     ctx.cov["traces_validated_against_impl"] = dist["replay_ok"]
@@ -132,7 +147,7 @@ def replay(ctx, path):
     mode, seed, env = m.group(1), int(m.group(2)), eval(m.group(3))
     exe, log = build_vrt_exe("c15", SRCS, repo_cpp=REPO_CPP)
     drv = ctx.driver("drv_C15")
-    runs = ctx.econc(exe, drv if mode == "lock" else None, [mode], seed, 1, env=env)
+    runs = ctx.econc(exe, drv if (mode == "lock" and "VRT_MEM" not in env) else None, [mode], seed, 1, env=env)
     r = runs[0]
     print("\n".join(r["lines"]))
     print("verdict:", r["verdict"], "replay:", r["replay"], "oracle:", r["oracle"], "races:", r["races"][:3])
